@@ -23,6 +23,8 @@ func parseCid(s string) (cid.Cid, error) { return cid.Decode(s) }
 
 type e3Engine struct{}
 
+var newStoreHook func() *SimStore
+
 func (e3Engine) Name() string { return "E3" }
 
 func (e3Engine) Gen(prop string, seed int64, tier string) *Plan {
@@ -99,7 +101,11 @@ func (w *e3World) start() bool {
 	}
 	w.opts = NodeOpts{Ident: id, DBOpts: []db.Option{db.WithEnabledSigning(p.cfg("sign", 0) != 0)}}
 	setRandStep("start")
-	n, err := startNode(w.ctx, "n", NewSimStore(), w.opts)
+	st := NewSimStore
+	if newStoreHook != nil {
+		st = newStoreHook
+	}
+	n, err := startNode(w.ctx, "n", st(), w.opts)
 	if err != nil {
 		w.fail("startNode: %v", err)
 		return false
